@@ -93,6 +93,7 @@ pub fn generate(family: &str, seed: u64, tier: &str) -> Vec<String> {
                                 continue;
                             }
                             let sc = with(&with(&with(s, seg.clone()), p.clone()), json!({"seed":si,"garbage":g,
+                                "status":([200usize, 404, 503, 201, 301, 400, 500][(si + qi + pi) % 7]),
                                 "id":format!("xs-{}-{}-{}-{}", si, gi, qi, pi)}));
                             out.push(sc);
                         }
@@ -167,7 +168,8 @@ pub fn generate(family: &str, seed: u64, tier: &str) -> Vec<String> {
             ];
             for i in 0..n {
                 let kind = *r.pick(&["chunked", "chunked", "chunked", "length", "close"]);
-                let mut sc = json!({"id":format!("{}-{}", family, i),"seed":r.next() % 100000,"pk":*r.pick(&["bytes","bytes","crlf","rep"])});
+                let mut sc = json!({"id":format!("{}-{}", family, i),"seed":r.next() % 100000,"pk":*r.pick(&["bytes","bytes","crlf","rep"]),
+                    "status":*r.pick(&[200usize, 200, 206, 404, 410, 500, 503, 302])});
                 let plen;
                 match kind {
                     "chunked" => {
